@@ -7,11 +7,12 @@ from symx.runner import Case
 from symx import seqs
 from .common import *
 
-ORACLE = ('a map record number -> bytes plus "highest record written": GET returns the last PUT of '
-          'that record (zeros for records never written), LOF = record length * highest record, LOC = '
-          'last record accessed; the file bytes are the concatenation of the records')
-BOUNDS = {'file': 'initially 0..2 records of symbolic content', 'record length': '1..3 bytes (one case each)',
-          'history': '3 operations (quick) / 4 (thorough), each PUT or GET (symbolic choice) with '
+ORACLE = ('the file as a byte list: PUT of record r writes the buffer at offset (r-1)*reclen after '
+          'zero-filling any gap, GET returns the reclen bytes at that offset padded with zeros past the '
+          'end, LOF = length, LOC = last record accessed')
+BOUNDS = {'file': 'initially any length 0..2*reclen+1 bytes of symbolic content (also lengths that are not a '
+                  'multiple of the record length)', 'record length': '1..3 bytes (one case each)',
+          'history': '2-3 operations (quick) / 3-4 (thorough), each PUT or GET (symbolic choice) with '
                      'symbolic record number 1..6 or omitted (next record) and symbolic buffer contents',
           'outside': 'record numbers given as Single/Double values (Files._check_pos uses Python floats), '
                      'numbers above 6, several files, FIELD variables (the buffer is accessed directly)'}
@@ -32,23 +33,23 @@ def body(h):
     reclen = h.params['reclen']
     nops = h.params['ops']
     D = h.P.basic.devices.diskfiles._module()
-    nrec0 = h.concretize(h.int('nrec0', 0, 2))
-    init = h.bytes('init', 2 * reclen)
-    init_items = list(init)[:nrec0 * reclen]
+    # initial file: any length 0 .. 2*reclen+1 bytes (so also lengths that are not a multiple of the
+    # record length, as when a file is reopened with another LEN)
+    maxlen = 2 * reclen + 1
+    len0 = h.concretize(h.int('len0', 0, maxlen), 20)
+    init = h.bytes('init', maxlen)
+    data0 = list(init)[:len0]
     if h.symbolic:
-        fh = seqs.SymIO(seqs.mk_bytes(init_items))
+        fh = seqs.SymIO(seqs.mk_bytes(data0))
     else:
         import io
-        fh = io.BytesIO(bytes(init_items))
+        fh = io.BytesIO(bytes(data0))
     locks = D.Locks()
     locks.open_file(b'DATA.DAT', 1, b'R', b'', b'')
     field = Field(D, 128)
     f = D.RandomFile(fh, 1, field, reclen, locks)
-    # reference model
-    model = {}
-    for r in range(nrec0):
-        model[r + 1] = init_items[r * reclen:(r + 1) * reclen]
-    highest = nrec0
+    # reference model: the file as a byte list
+    ref = list(data0)
     recpos = 0                      # 0-based next record
     obs = []
     for k in range(nops):
@@ -56,34 +57,36 @@ def body(h):
         pos = h.concretize(h.int('pos%d' % k, 0, 6), 10)     # 0: omitted
         arg = pos if pos else None
         target = pos if pos else recpos + 1
+        off = (target - 1) * reclen
         if is_put:
             data = h.bytes('data%d' % k, reclen)
             f._field_file.set_buffer(data)
             res = h.call(f.put, arg)
             h.require('put-%d-ok' % k, res[0] == 'ok')
-            model[target] = list(data)
-            highest = max(highest, target)
+            if off > len(ref):
+                ref.extend([0] * (off - len(ref)))
+            ref[off:off + reclen] = list(data)
         else:
             res = h.call(f.get, arg)
             h.require('get-%d-ok' % k, res[0] == 'ok')
             got = list(f._field_file.get_buffer())
-            want = model.get(target, [0] * reclen)
+            want = ref[off:off + reclen]
+            want = want + [0] * (reclen - len(want))
             h.require('get-%d-returns-last-put' % k, bytes_eq(got, want))
             obs.append(got)
         recpos = target
         h.require('loc-%d' % k, f.loc() == recpos)
-        h.require('lof-%d' % k, f.lof() == reclen * highest)
-    # the file is the concatenation of the records
+        h.require('lof-%d' % k, f.lof() == len(ref))
     content = list(fh.getvalue())
-    want = []
-    for r in range(1, highest + 1):
-        want += model.get(r, [0] * reclen)
-    h.require('file-content', bytes_eq(content, want))
+    h.require('file-content', bytes_eq(content, ref))
     obs.append(content)
     return obs
 
 
 def cases(tier):
-    ops = 4 if tier == 'thorough' else 3
-    return [Case('records-len%d' % r, body, params={'reclen': r, 'ops': ops}, max_paths=400000,
-                 timeout_s=3000) for r in (1, 2, 3)]
+    if tier == 'thorough':
+        plan = {1: 4, 2: 4, 3: 3}
+    else:
+        plan = {1: 2, 2: 3, 3: 2}
+    return [Case('records-len%d' % r, body, params={'reclen': r, 'ops': k}, max_paths=800000,
+                 timeout_s=5000) for r, k in plan.items()]
